@@ -113,6 +113,7 @@ var qualifiedMap = map[string]string{
 	"os.Getpid":            "Getpid",
 	"os.Hostname":          "Hostname",
 	"sync.Pool":            "Pool",
+	"sync.Map":             "Map",
 	"time.Now":             "Now",
 	"time.Since":           "Since",
 	"time.Sleep":           "Sleep",
@@ -122,7 +123,7 @@ var qualifiedMap = map[string]string{
 var atomicTypes = map[string]bool{"Value": true, "Bool": true, "Int32": true, "Int64": true, "Uint32": true, "Uint64": true, "Uintptr": true, "Pointer": true}
 
 var forbidden = map[string]bool{
-	"sync.Cond": true, "sync.Map": true, "sync.NewCond": true,
+	"sync.Cond": true, "sync.NewCond": true,
 	"sync.OnceFunc": true, "sync.OnceValue": true, "sync.OnceValues": true,
 	"time.NewTimer": true, "time.NewTicker": true, "time.After": true, "time.AfterFunc": true, "time.Tick": true,
 	"net.DialTimeout": true, "net.Listen": true, "net.DialTCP": true,
@@ -166,8 +167,8 @@ func (r *rewriter) mutexMethod(call *ast.CallExpr) (fn string, ptr ast.Expr, col
 		prefix = "Mutex"
 	case "RWMutex":
 		prefix = "RW"
-	case "Pool":
-		// sync.Pool is replaced as a type by simrt.Pool, which has the same methods
+	case "Pool", "Map":
+		// sync.Pool and sync.Map are replaced as types by simrt.Pool / simrt.Map, which have the same methods
 		return
 	case "Once", "WaitGroup":
 		want := map[string]string{"Once.Do": "OnceDo", "WaitGroup.Add": "WGAdd", "WaitGroup.Done": "WGDone", "WaitGroup.Wait": "WGWait"}
@@ -243,7 +244,7 @@ func isPoolMethod(m *types.Func) bool {
 	if recv == nil {
 		return false
 	}
-	return typeName(recv.Type()) == "sync.Pool"
+	return typeName(recv.Type()) == "sync.Pool" || typeName(recv.Type()) == "sync.Map"
 }
 
 func typeName(t types.Type) string {
